@@ -29,7 +29,7 @@ func init() {
 	})
 }
 
-const prelude = `oo := {v: 1, f: m{|x| "uf".p; x}, bad: m{"ub".p; raise ValueErr.new("vm")}, w: m{{v: 2}}, err1: m{1.try.{|n| raise TypeErr.new("captured")}.err}, kw: m{|a, k: 0| "uk".p; raise ValueErr.new("kbig") if k > 5; a + k}}
+const prelude = `oo := {pair: m{|a, b| "up".p; [a, b]}, div: m{|a, b| "ud".p; 100 / b}, v: 1, f: m{|x| "uf".p; x}, bad: m{"ub".p; raise ValueErr.new("vm")}, w: m{{v: 2}}, err1: m{1.try.{|n| raise TypeErr.new("captured")}.err}, kw: m{|a, k: 0| "uk".p; raise ValueErr.new("kbig") if k > 5; a + k}}
 n5 := 5.bear(oo)
 sa := "a".bear(oo)
 mp := %{"len": 5, "foo": 6}
@@ -62,6 +62,8 @@ func alphabet() []step {
 		// generated: later steps of the plain chain would then run on an Either, which is no plain baseline
 		{Src: `.{|x| "s".p; ew}`}, {Src: `.{|x| "s".p; [ew]}`}, {Src: ".err1", Obj: true},
 		// steps with keyword arguments (they must reach the callee)
+		// nil among the arguments of a step keeps its position
+		{Src: ".pair(nil, 2)", Obj: true}, {Src: ".pair(1, nil)", Obj: true}, {Src: ".div(nil, 0)", Obj: true}, {Src: ".pair(nil, nil)", Obj: true},
 		{Src: ".kw(1, k: 2)", Obj: true}, {Src: ".kw(1, k: 10)", Obj: true}, {Src: ".kw(1)", Obj: true}, {Src: `.split(sep: ",")`}, {Src: `.join(sep: "-")`},
 	}
 	for i, k := range errKinds {
